@@ -584,7 +584,10 @@ impl Prop for C01 {
                     out.fail("C01:wrote-past-buffer", "canary after the output buffer was modified");
                     return out;
                 }
-                if let Some((k, d)) = compare_with_view(&p, &view) {
+                if view.dup_known {
+                    // RFC 8259: with duplicate names the value a parser reports is unpredictable; nothing to compare against
+                    out.label("accepted-with-duplicate-known-member");
+                } else if let Some((k, d)) = compare_with_view(&p, &view) {
                     out.fail(format!("C01:{k}"), d);
                 }
             }
